@@ -57,7 +57,7 @@ TABLE = [
      f"exists(lambda j: {DEP_BAD}, len(self.params['dependencies']))",
      {"invariants": {1: f"forall(lambda j: not ({DEP_BAD}), _k)"}, "kinds": {"self.params['dependencies']": "dict"}}),
     ("object", "AdditionalProperties", "dict_wf(value)", "dict", "(dict,)",
-     {"__properties__": "isinstance({p}, Properties) and is_obj({p}.additional)"},
+     {"__properties__": "isinstance({p}, Properties) and props_wf({p})"},
      "not truthy(self.params['__properties__'].additional) and "
      "exists(lambda j: not props_accepts(self.params['__properties__'], key_at(value, j)), len(value))",
      {"kinds": {"self.params['__properties__']": "Properties"}}),
